@@ -1,6 +1,6 @@
 (** Pinned statements of the C04 property theorems: compiled on every check, so a theorem cannot be
     weakened silently. *)
-From V Require Import Base.Util Gql.Ast C03.Model C03.Spec C03.Witness C03.Proofs C03.Proofs2 C03.Proofs3 C04.Proofs C04.Proofs2 C04.Properties.
+From V Require Import Base.Util Gql.Ast C03.Model C03.Spec C03.Witness C03.Proofs C03.Proofs2 C03.Proofs3 C04.Proofs C04.Proofs2 C04.Proofs3 C04.Properties.
 
 Check (C04_type_compat_complete : forall vt lt, types_compatible vt lt = true -> type_compat vt lt = true).
 Check (C04_check_value_complete : forall S vars,
@@ -33,6 +33,17 @@ Check (C04_complete_vis : forall S D,
   check_operation_document S D = []).
 Check (C04_complete_vis_guard_satisfiable :
   schema_wf w_schema_0 = true /\ schema_closed w_schema_0 = true /\ doc_fine_vis w_schema_0 w_doc_14 = true).
+Check (C04_full_to_vis : forall S D,
+  schema_wf S = true -> (forall r, rule_ok S D r = true) -> forall r, rule_ok_vis S D r = true).
+Check (C04_complete : forall S D,
+  schema_wf S = true -> schema_closed S = true ->
+  spec_valid S D = true -> doc_guard S D = true ->
+  (forall o, In o (doc_ops D) -> op_type o = Subscription ->
+     count_fields (doc_fuel D) (doc_frags D) [] (op_sel o) <= 1) ->
+  check_operation_document S D = []).
+Check (C04_complete_guard_satisfiable :
+  schema_wf w_schema_0 = true /\ schema_closed w_schema_0 = true
+  /\ spec_valid w_schema_0 w_doc_14 = true /\ doc_guard w_schema_0 w_doc_14 = true).
 Check (C04_variable_default_position_refuted :
   exists S D, spec_valid S D = true /\ check_operation_document S D <> []).
 Check (C04_subscription_same_field_refuted :
@@ -48,6 +59,9 @@ Print Assumptions C04_check_directives_complete.
 Print Assumptions C04_guard_satisfiable.
 Print Assumptions C04_complete_vis.
 Print Assumptions C04_complete_vis_guard_satisfiable.
+Print Assumptions C04_full_to_vis.
+Print Assumptions C04_complete.
+Print Assumptions C04_complete_guard_satisfiable.
 Print Assumptions C04_variable_default_position_refuted.
 Print Assumptions C04_subscription_same_field_refuted.
 Print Assumptions C04_valid_documents_accepted.
